@@ -20,6 +20,19 @@ class RLeaf(N.Leaf):
         return None if self.k % 3 == 2 else ("v", self.k)     # some leaves produce None (JSON null)
 
 
+class RLeafV(RLeaf):
+    """a leaf class with value semantics, as a user's dataclass-like subclass has: two leaves with the same payload compare
+    equal and hash alike (the library must keep telling nodes apart by identity)"""
+    def __eq__(self, other):
+        return isinstance(other, RLeafV) and (self.is_valid, self.id) == (other.is_valid, other.id)
+
+    def __hash__(self):
+        return hash((self.is_valid, self.id))
+
+
+VALUE_LEAVES = False
+
+
 class RDec(N.Decision):
     def __init__(self, k, id, all_):
         super().__init__(id, all_)
@@ -56,7 +69,7 @@ def build(ops):
     for o in ops:
         k = len(nodes)
         if o[0] == 'L':
-            nodes.append(RLeaf(k, enc_id(o[2]), bool(o[1])))
+            nodes.append((RLeafV if VALUE_LEAVES else RLeaf)(k, enc_id(o[2]), bool(o[1])))
         elif o[0] == 'D':
             cls = RNoOp if o[2] else RDec
             nodes.append(cls(k, enc_id(o[3]), bool(o[1])))
